@@ -308,7 +308,9 @@ pub fn run_families(cfg: &EngineCfg, fams: &[Box<dyn Family>]) -> RunResult {
                         _ => "died".to_string(),
                     };
                     died = Some(how);
-                } else if idx != u64::MAX && p.last_change.elapsed() > hang {
+                } else if idx != u64::MAX && p.last_change.elapsed() > (if beat == 0 { hang.max(Duration::from_secs(180)) } else { hang }) {
+                    // (before its first case a worker re-builds the family list; on a busy machine that start-up can
+                    // take longer than the hang bound of a single case, so it gets a bound of its own)
                     let _ = p.child.kill();
                     let _ = p.child.wait();
                     died = Some(format!("hang>{}s", fam.hang_secs()));
